@@ -38,7 +38,7 @@ theorem inv_rAcq (h : Inv c s) (hpc : s.rpc = .acq) (hsem : 0 < s.sem) :
   case rPut => simp
   case rExit => simp
   case cnt => fr [hpc] h.cnt
-  case permits => have := h.permits; simp only [held, pending, hpc, RPc.holds] at this ⊢; omega
+  case permits => have := h.permits; simp only [held, pending, hpc, RPc.holds, RPc.inCall] at this ⊢; omega
   case fin =>
     intro hp
     have := (h.fin hp).1
@@ -83,7 +83,7 @@ theorem inv_rLeave_app (h : Inv c s) (hpc : s.rpc = .insrc) (v : Nat) (hv : c.sr
     have := h.cnt k
     simp only [cnt, hpc, RPc.hand, optCount_none, optCount_some] at this ⊢
     split at this <;> split <;> split <;> omega
-  case permits => have := h.permits; simp only [held, pending, hpc, RPc.holds] at this ⊢; omega
+  case permits => have := h.permits; simp only [held, pending, hpc, RPc.holds, RPc.inCall] at this ⊢; omega
   case storeSound => fr [hpc] h.storeSound
   case storeComplete => fr [hpc] h.storeComplete
 
@@ -102,7 +102,7 @@ theorem inv_rLeave_put (h : Inv c s) (hpc : s.rpc = .insrc)
     have := h.cnt k
     simp only [cnt, hpc, RPc.hand, optCount_none, optCount_some] at this ⊢
     split at this <;> split <;> split <;> omega
-  case permits => have := h.permits; simp only [held, pending, hpc, RPc.holds] at this ⊢; omega
+  case permits => have := h.permits; simp only [held, pending, hpc, RPc.holds, RPc.inCall] at this ⊢; omega
   case storeSound =>
     intro e he
     have := h.storeSound e he
@@ -202,7 +202,7 @@ theorem inv_rPut (h : Inv c s) (m : Msg) (hpc : s.rpc = .put m) :
     cases m.pay <;> simp [List.count_cons] at this ⊢ <;> omega
   case permits =>
     have := h.permits
-    simp only [held, pending, hpc, RPc.holds, List.length_append] at this ⊢
+    simp only [held, pending, hpc, RPc.holds, RPc.inCall, List.length_append] at this ⊢
     cases m.pay <;> simp at this ⊢ <;> omega
   case rawInq =>
     intro x hx
